@@ -5,12 +5,15 @@ package main
 import (
 	"flag"
 	"fmt"
+	"go/ast"
 	"go/token"
 	"go/types"
 	"os"
 	"sort"
 	"strings"
 	"time"
+
+	"golang.org/x/tools/go/types/typeutil"
 )
 
 type Entry struct {
@@ -290,12 +293,48 @@ func (c *Check) closuresBoundToScan(family string) []*Binding {
 				if ev.Kind != EvCall || ev.CI.fn == nil {
 					continue
 				}
+				// a function literal of f called directly on a record gathered from the scan beforehand
+				if ev.CI.name == "dyn" && ev.CI.fn.Lit != nil && ev.CI.fn.Parent == f && !seen[ev.CI.fn.Name+"|direct"] {
+					hit := false
+					for _, a := range ev.CI.args {
+						if p.scansFamily(a, family) {
+							hit = true
+						}
+					}
+					if hit {
+						seen[ev.CI.fn.Name+"|direct"] = true
+						b := &Binding{Closure: ev.CI.fn, Caller: f, Call: ev, Iter: f, Args: ev.CI.args, IdP: "P0", ValP: "P1"}
+						c.resolveAdapter(b)
+						out = append(out, b)
+					}
+					continue
+				}
 				g := ev.CI.fn
 				sum := p.SummaryOf(g)
 				scans := false
+				var twoPass map[string]*Term
 				for _, e := range sum.Effs {
 					if e.Kind == "store" && e.Op == "Iter" && e.Family == family && len(e.Chain) <= 1 {
 						scans = true
+					}
+				}
+				if !scans {
+					// a driver over a collection gathered from the scan beforehand (two-pass form): what it hands to its
+					// function parameter, on this call's arguments, is an element of the scanned family
+					m := map[string]*Term{}
+					for i, a := range ev.CI.args {
+						m[fmt.Sprintf("P%d", i)] = a
+					}
+					for _, e := range sum.Effs {
+						if e.Kind != "dyn" || len(e.Args) < 2 || len(e.Chain) > 1 {
+							continue
+						}
+						for _, a := range e.Args[1:] {
+							if ia := a.Subst(m); ia != a && p.scansFamily(ia, family) {
+								scans = true
+								twoPass = m
+							}
+						}
 					}
 				}
 				if !scans {
@@ -320,12 +359,37 @@ func (c *Check) closuresBoundToScan(family string) []*Binding {
 						if cl != nil && !seen[cl.Name+"|"+g.Name] {
 							seen[cl.Name+"|"+g.Name] = true
 							b := &Binding{Closure: cl, Caller: f, Call: ev, Iter: g, Args: e.Args[1:], IdP: "P0", ValP: "P1"}
+							if twoPass != nil {
+								// what the driver hands to the handler, on the collection gathered from the scan
+								b.Args = nil
+								for _, a := range e.Args[1:] {
+									b.Args = append(b.Args, a.Subst(twoPass))
+								}
+							}
 							c.resolveAdapter(b)
 							out = append(out, b)
 						}
 					}
 				}
 			}
+		}
+	}
+	// a literal that only gathers the scanned records for a later pass is not the handler of the scan
+	if len(out) > 1 {
+		var keep []*Binding
+		for _, b := range out {
+			mut := false
+			for _, e := range p.SummaryOf(b.Closure).Effs {
+				if e.Mutates() {
+					mut = true
+				}
+			}
+			if mut {
+				keep = append(keep, b)
+			}
+		}
+		if len(keep) > 0 {
+			out = keep
 		}
 	}
 	return out
@@ -345,7 +409,7 @@ func (c *Check) closeFacts(fs FactSet) FactSet {
 	for len(work) > 0 {
 		f := work[0]
 		work = work[1:]
-		if f.Neg || f.T.Op != "ok" || len(f.T.A) != 1 {
+		if f.T.Op != "ok" || len(f.T.A) != 1 {
 			continue
 		}
 		call := f.T.A[0]
@@ -354,6 +418,17 @@ func (c *Check) closeFacts(fs FactSet) FactSet {
 			continue
 		}
 		m := argMap(g, call)
+		if f.Neg {
+			// a check with a single cause of failure: it fails exactly when that one condition fails
+			if x, ok := c.singleFailureCause(g); ok {
+				for _, nf := range x.Not().SubstAll(m) {
+					if !out.Has(nf) && !nf.T.IsAt("#true") && !nf.T.IsAt("#false") {
+						out.Add(nf)
+					}
+				}
+			}
+			continue
+		}
 		for _, sf := range c.P.SummaryOf(g).SuccessFacts {
 			for _, nf := range sf.SubstAll(m) {
 				if nf.T.IsAt("#true") || nf.T.IsAt("#false") {
@@ -615,4 +690,120 @@ func (c *Check) nVolume() string {
 }
 func (c *Check) nParsePricing() string {
 	return nameOf(c.fnBySignature([]string{"string"}, []string{"types.Pricing", "error"}), "keeper.Keeper.ParsePricing")
+}
+
+// singleFailureCause: g returns only an error and has one committed and one rejecting path that differ in exactly
+// one fact x (x on success, ¬x on failure, everything else alike): ok(g) ⇔ x.
+func (c *Check) singleFailureCause(g *Func) (Fact, bool) {
+	if g == nil || g.Body == nil || c.P.pathsBusy[g] || len(g.Res) == 0 || !isErrorType(g.Res[len(g.Res)-1].Type()) {
+		return Fact{}, false
+	}
+	var okP, badP *Path
+	for _, pa := range c.P.PathsOf(g) {
+		switch {
+		case pa.Exit == ExitSuccess && okP == nil:
+			okP = pa
+		case pa.Exit == ExitRevert && badP == nil:
+			badP = pa
+		default:
+			return Fact{}, false
+		}
+	}
+	if okP == nil || badP == nil {
+		return Fact{}, false
+	}
+	fs, fr := okP.AllFacts(), badP.AllFacts()
+	var x *Fact
+	for _, f := range fs {
+		if fr.Has(f) {
+			continue
+		}
+		if !fr.Has(f.Not()) || x != nil {
+			return Fact{}, false
+		}
+		ff := f
+		x = &ff
+	}
+	if x == nil || len(fr) != len(fs) {
+		return Fact{}, false
+	}
+	return *x, true
+}
+
+// liftCallArgs: the arguments of a call made by function f, expressed over the arguments of f's own single caller
+// while they are bare parameters of f (a wrapper that hands its parameters on): returns the lifted arguments and the
+// function they are finally expressed in.
+func (c *Check) liftCallArgs(f *Func, args []*Term) ([]*Term, *Func) {
+	for depth := 0; depth < 3 && f != nil && f.Obj != nil; depth++ {
+		bare := false
+		for _, a := range args {
+			if a != nil && a.Op == "" && strings.HasPrefix(a.At, "P") && !a.IsAt("Precv") {
+				bare = true
+			}
+		}
+		if !bare || c.P.refCount()[f.Obj] != 1 || c.P.refsOther[f.Obj] > 0 {
+			return args, f
+		}
+		caller := c.P.refCaller[f.Obj]
+		if caller == nil {
+			return args, f
+		}
+		var call *Event
+		hosts := []*Func{caller}
+		for _, h := range c.P.Funcs {
+			// the reference may sit in a function literal of the caller
+			for q := h.Parent; q != nil; q = q.Parent {
+				if q == caller {
+					hosts = append(hosts, h)
+				}
+			}
+		}
+		for _, h := range hosts {
+			for _, pa := range c.P.PathsOf(h) {
+				for _, ev := range pa.Events {
+					if ev.Kind == EvCall && ev.CI.fn == f && call == nil {
+						call = ev
+						caller = h
+					}
+				}
+			}
+		}
+		var callArgs []*Term
+		if call != nil {
+			callArgs = call.CI.args
+		} else {
+			// the call may have been walked in place: read its arguments off the source
+			for _, h := range hosts {
+				if h.Body == nil || callArgs != nil {
+					continue
+				}
+				info := h.Pkg.TypesInfo
+				ast.Inspect(h.Body, func(nd ast.Node) bool {
+					if ce, ok := nd.(*ast.CallExpr); ok && callArgs == nil {
+						if fo, _ := typeutil.Callee(info, ce).(*types.Func); fo == f.Obj {
+							ev := c.P.fiEval(h)
+							for _, a := range ce.Args {
+								callArgs = append(callArgs, ev.eval(a))
+							}
+							caller = h
+						}
+					}
+					return callArgs == nil
+				})
+			}
+		}
+		if callArgs == nil {
+			return args, f
+		}
+		m := map[string]*Term{}
+		for i, a := range callArgs {
+			m[fmt.Sprintf("P%d", i)] = a
+		}
+		var na []*Term
+		for _, a := range args {
+			na = append(na, a.Subst(m))
+		}
+		args, f = na, caller
+	}
+	return args, f
 }
